@@ -400,7 +400,12 @@ def run(ctx):
         for b, t in f.calls():
             if callee_matches(t, "Iterator::last", "Iterator::nth", "<impl [T]>::first", "<impl [T]>::last",
                               "Iterator::max", "Iterator::min", "Iterator::position", "Vec::dedup", "Iterator::take",
-                              "Iterator::skip", "Iterator::rev", "<impl [T]>::sort", "Vec::truncate"):
+                              "Iterator::skip", "Iterator::rev", "Vec::truncate"):
+                # (sorting is not in the list: it replaces the hash order by a defined one.)  Only a sequence of bindings counts —
+                # its items carry values; a list of identifiers from the import set's own text has a defined order
+                recv_ty = (t.get("argtys") or [""])[0] + " " + " ".join(str(x) for x in ((t.get("fn") or {}).get("generics") or []))
+                if "Value<" not in recv_ty and "values::Value" not in recv_ty:
+                    continue
                 ctx.report("C12-deterministic", "%s/positional" % f.name, "positional / selecting operation %s on the "
                            "binding sequence (hash-ordered)" % callee(t), where_of(f, t))
     ctx.floor("C12-deterministic", 3)
